@@ -59,6 +59,12 @@ func c02Ops() []c02op {
 	gm.altB = []string{"x:1,2"}
 	o = append(o, gm)
 	o = append(o, f("Gemm", "transA=1", "x,w,c", "o", []string{"x:2,2", "w:2,2", "c:2,1"}, "w", "c"))
+	// a batch of ONE sample (a single-row matrix) against weights that are not transposed, for the matrix products
+	o = append(o, f("Gemm", "", "x,w,c", "o", []string{"x:1,2", "w:2,3", "c:3"}, "w", "c"))
+	o = append(o, f("Gemm", "alpha=2", "x,w", "o", []string{"x:1,3", "w:3,2"}, "w"))
+	o = append(o, f("MatMul", "", "x,w", "o", []string{"x:1,2", "w:2,3"}, "w"))
+	o = append(o, f("MatMul", "", "x,w", "o", []string{"x:2", "w:2,3"}, "w"))
+	o = append(o, f("LinearRegressor", "coefficients=1,2,3,4,5,6;intercepts=1,2;targets=2", "x", "o", []string{"x:1,3"}, "x"))
 	// the weight as the FIRST operand (y = W^T x)
 	o = append(o, f("Gemm", "transA=1", "w,x,c", "o", []string{"x:2,2", "w:2,2", "c:2"}, "w", "c"))
 	o = append(o, f("Gemm", "transA=1;transB=1", "w,x", "o", []string{"x:3,2", "w:2,2"}, "w"))
@@ -166,6 +172,32 @@ func init() {
 	}
 }
 
+// reentrancyJobs: a few models of the C17 set (frame condition under the write monitor, confirmed by the concurrent
+// harness under the race detector) for properties about Run that are also meant for overlapping Runs on one Model.
+func reentrancyJobs(o Options, p *Plan) {
+	n := 0
+	for _, j := range c02Plan(o, "C17", "gonnx.H_C17").Jobs {
+		ops, _ := j.Case["ops"].([]string)
+		if _, d := j.Case["defaulted"]; d || len(ops) == 0 {
+			continue
+		}
+		first := ops[0]
+		if (len(ops) == 1 && (first == "Relu" || first == "Add" || first == "GRU" || first == "Gemm")) || (len(ops) == 3 && first == "Gemm") {
+			if lt, _ := j.Case["lazyT"].(string); lt != "" {
+				continue
+			}
+			j.Case["sample"] = ""
+			p.Jobs = append(p.Jobs, j)
+			n++
+		}
+		if n >= 8 {
+			break
+		}
+	}
+	p.RaceHarness = "gonnx.H_C17_race"
+	p.Bounds = append(p.Bounds, "overlapping Runs on one Model: for a few models of the C17 set a Run must write nothing reachable from the Model or package state (the frame condition of C17, under the interpreter's write monitor; a hit is confirmed by the concurrent harness under go test -race before it is reported)")
+}
+
 // operators for which the history is also run with a lazily transposed caller tensor
 var lazyTOps = map[string]bool{"Reshape": true, "Flatten": true, "Squeeze": true, "Unsqueeze": true, "Transpose": true, "Relu": true, "Abs": true,
 	"Add": true, "Mul": true, "MatMul": true, "Gemm": true, "Concat": true, "Slice": true, "Gather": true, "Expand": true, "ReduceMax": true, "ArgMax": true,
@@ -253,16 +285,30 @@ func c02Plan(o Options, prop, harness string) *Plan {
 				cm["inputsBad"] = bad
 				cm["lazyT"] = ""
 				p.Jobs = append(p.Jobs, Job{Harness: harness, Case: cm})
+				// the caller writes new values into the very same tensor objects and runs again
+				if variant == "caller" && len(inputs) > 0 && prop == "C02" {
+					cm3 := map[string]interface{}{}
+					for k, x := range cm {
+						cm3[k] = x
+					}
+					cm3["rewrite"] = true
+					p.Jobs = append(p.Jobs, Job{Harness: harness, Case: cm3})
+				}
 				// the first caller tensor handed over as a lazy transpose (rank-2 float inputs)
-				if variant == "caller" && len(inputs) > 0 && lazyTOps[c.op] {
-					first := strings.Split(inputs[0], ":")
-					if len(first) == 2 && strings.Count(first[1], ",") == 1 {
-						cm2 := map[string]interface{}{}
-						for k, x := range cm {
-							cm2[k] = x
+				if len(inputs) > 0 && lazyTOps[c.op] && (variant == "caller" || c.op == "MatMul" || c.op == "Gemm" || c.op == "Add" || c.op == "Mul") {
+					for k, in := range inputs {
+						if k > 1 || (k == 1 && c.op != "MatMul" && c.op != "Gemm" && c.op != "Add") {
+							break // (the second caller tensor as well for the matrix products and Add)
 						}
-						cm2["lazyT"] = first[0]
-						p.Jobs = append(p.Jobs, Job{Harness: harness, Case: cm2})
+						spec := strings.Split(in, ":")
+						if len(spec) == 2 && strings.Count(spec[1], ",") == 1 {
+							cm2 := map[string]interface{}{}
+							for kk, x := range cm {
+								cm2[kk] = x
+							}
+							cm2["lazyT"] = spec[0]
+							p.Jobs = append(p.Jobs, Job{Harness: harness, Case: cm2})
+						}
 					}
 				}
 			}
@@ -318,7 +364,7 @@ func c02Plan(o Options, prop, harness string) *Plan {
 			}
 		}
 		p.Bounds = []string{
-			"one inductive step plus a concrete history: for each model, Run(A), a failing Run (an input missing), Run(B) (other values, for several operators another batch size) compared with a freshly loaded model, Run(A) again with the very same tensor objects compared with the first result, a Run fed with an output of the first Run, and (multi-node graphs) a Run that overrides initializers declared as defaulted graph inputs followed by one that leaves them to the defaults; after every Run the caller's tensors and every weight are compared with snapshots (shape, strides, dtype, elements) and the frame monitor must have seen no write to them",
+			"one inductive step plus a concrete history: for each model, Run(A), a failing Run (an input missing), Run(B) (other values, for several operators another batch size) compared with a freshly loaded model, Run(A) again with the very same tensor objects compared with the first result, a Run fed with an output of the first Run, a Run on the very same tensor objects after the caller has written new values into them, and (multi-node graphs) a Run that overrides initializers declared as defaulted graph inputs followed by one that leaves them to the defaults; after every Run the caller's tensors and every weight are compared with snapshots (shape, strides, dtype, elements) and the frame monitor must have seen no write to them",
 			"models: single-node graphs for all 55 operators (several attribute/shape variants; every input that can be a weight once supplied by the caller and once as initializer) plus nine multi-node graphs (six pass a weight through an operator that may return its input itself, as an intermediate value); every float/bool element symbolic (exact real arithmetic; IEEE for Cast), integer-typed shape/axes/index tensors concrete",
 		}
 		p.Outside = []string{"histories longer than five Runs (covered by induction on the frame condition: a Run that writes nothing reachable from the Model or the caller's tensors starts from the state a fresh Model starts from)", "the sample .onnx files (their operators are covered one by one)", "tensor extents > 4"}
